@@ -156,27 +156,10 @@ def walk(ctx, front, routes, ncalls, g, w, init, labels, tag, learn=None):
     return len(done)
 
 
-class _LazyStates(dict):
-    """state id -> parsed state; the dot labels are parsed on first use (most states are never looked at)."""
-    def __init__(self, raw):
-        super().__init__()
-        self.raw = raw
-
-    def __missing__(self, k):
-        from harness import tlaval
-        v = tlaval.parse_state(self.raw[k])
-        self[k] = v
-        return v
-
-    def __len__(self):
-        return len(self.raw)
-
-
 def load_graph(ctx, front, name, cs):
     cfgp = os.path.join(tlc.BUILD, 'NfdReg_g_%s_%s.cfg' % (front, name))
     tlc.write_cfg(cfgp, constants=cs, invariants=['TypeOK', 'ClockBound'])
-    g = graph.dump('NfdReg', cfgp, workers=4, tag='c17g', parse_states=False)
-    g.state = _LazyStates(g.state)
+    g = regkit.fast_dump('NfdReg', cfgp, workers=4, tag='c17g')
     ctx.add_tlc('NfdReg graph %s/%s (%d edges)' % (front, name, g.n_edges), g.tlc)
     return g
 
@@ -264,7 +247,7 @@ def stage_resp_b(ctx):
     tlc.write_cfg(cfgp, spec=None, init='JInit', next_='JNext')
     if os.path.exists(out):
         os.remove(out)
-    r = tlc.run('NfdRegResp', cfgp, workers=1, heavy=False, env={'CASES_OUT': out, 'TRACE_FILE': '/dev/null'}, tag='c17enum')
+    tlc.run('NfdRegResp', cfgp, workers=1, heavy=False, env={'CASES_OUT': out, 'TRACE_FILE': '/dev/null'}, tag='c17enum')
     with open(out) as f:
         cases = json.load(f)
     recs = []
@@ -406,7 +389,6 @@ def judge(ctx, front, routes, recs, tag, forced=None):
     ctx.add_tlc('NfdRegTrace %s routes=%d (%d traces)' % (front, routes, len(recs)), r)
     if r.violated:
         raise tlc.MachineryError('NfdRegTrace: %s violated\n%s' % (r.violated, r.errtrace[:3000]))
-    import re
     from harness import tlaval
     ends = {}
     out = r.out
@@ -598,14 +580,19 @@ def replay(ctx, path):
         obj = json.load(f)
     if obj.get('kind') == 'path':
         sc = Scenario(obj['front'], ['x', 'y'][:obj['routes']], obj['ncalls'])
+        calls, answered = {}, set()
         try:
             for lab in obj['labels']:
                 act, args = lab[0], lab[1:]
+                if act == 'Call':
+                    calls[args[0]] = (args[1], '/' + args[2])
                 if act == 'FwdReply':
-                    idx = max(i for i, c in enumerate(sc.cmds))  # answered commands are the oldest unanswered ones
-                    open_ = [i for i in range(len(sc.cmds)) if i not in getattr(sc, '_ans', set())]
-                    idx = open_[0] if open_ else idx
-                    sc._ans = getattr(sc, '_ans', set()) | {idx}
+                    # the command of call c: first unanswered command with its verb and prefix (auto-registrations: first unanswered)
+                    open_ = [i for i in range(len(sc.cmds)) if i not in answered]
+                    want = calls.get(args[0])
+                    same = [i for i in open_ if want and (sc.cmds[i]['verb'], sc.cmds[i]['prefix']) == want]
+                    idx = (same or open_)[0]
+                    answered.add(idx)
                     sc.reply(idx, args[1], args[2], args[3])
                 else:
                     apply(sc, (), None, act, args)
